@@ -13,7 +13,7 @@ LEVEL = 'model_checking'
 RULE = ('every set of up to 3 saved recordings over 11 recording kinds (categories Op / OpX / Op_X / B that are prefixes of one another or '
         'contain underscores; metadata absent / {m:1} / {m:2,s:ab}; incomplete flag absent / False / True / None) x every query (5 '
         'categories x 9 filters x limits None/1/2/5 x ordered/random through iter_recording_ids, and the studio lookup with and without '
-        'skip-incomplete) on 7 cassette configurations (memory; file with sorted and reversed directory listing; S3 with key prefix '
+        'skip-incomplete) on 9 cassette configurations (memory; file with sorted and reversed directory listing; S3 with key prefix '
         "'', 'p', 'pp' in one shared fake bucket holding foreign recordings; read-only S3 view). states = distinct saved sets. "
         'Non-trivial = query whose reference answer is a proper, non-empty subset of the saved recordings.')
 ASSUMPTIONS = ['limit=0 is outside the domain (degenerate)', 'listing ORDER is not part of the claim, only the set / the size under a limit',
@@ -26,7 +26,7 @@ CATS = ['Op', 'OpX', 'Op_X', 'B', 'Zz']
 FILTERS = [None, {'m': 1}, {'m': [1, 2]}, {'s': 'a*'}, {'m': {'operator': '>', 'value': 1}}, {'absent_key': None}, {'absent_key': 1},
            {INC: [False, None]}, {'s': [['zz', None], 'q']}]
 LIMITS = [None, 1, 2, 5]
-CONFIGS = [('mem', None), ('file', 'sorted'), ('file', 'reversed'), ('s3', ''), ('s3', 'p'), ('s3', 'pp'), ('s3-ro', 'p')]
+CONFIGS = [('mem', None), ('file', 'sorted'), ('file', 'reversed'), ('s3', ''), ('s3', 'p'), ('s3', 'pp'), ('s3-ro', 'p'), ('s3', 'run_metadata'), ('s3', 'fullish/x')]
 
 
 def bounds(tier):
@@ -70,7 +70,7 @@ def run_case(case):
             writer = box.cassette
             from playback.tape_cassettes.s3.s3_tape_cassette import S3TapeCassette
             # foreign recordings of the other prefixes in the same bucket
-            for other in ('', 'p', 'pp', 'q/p'):
+            for other in ('', 'p', 'pp', 'q/p', 'run_metadata'):
                 if other != opt:
                     oc = S3TapeCassette('bucket', key_prefix=other, read_only=False)
                     for cat in ('Op', 'OpX'):
@@ -108,6 +108,13 @@ def _judge(case, writer, reader):
         r.add_metadata(dict(md2))
         writer.save_recording(r)
         saved[0] = (rid, cat, md2)
+    # what a caller does with the recordings it FETCHED (without saving them) must not influence later listings
+    for rid, cat, md in saved:
+        try:
+            got = reader.get_recording(rid)
+            got.add_metadata({'m': 99, 's': 'tampered', 'absent_key': 1, INC: True})
+        except Exception:
+            pass
     viols = []
     nontrivial = 0
     n = 0
@@ -153,11 +160,17 @@ def _judge(case, writer, reader):
                     check('iter_recording_ids(random=%s)' % rnd,
                           lambda: reader.iter_recording_ids(cat, metadata=dict(flt) if flt else flt, limit=limit, random_results=rnd), cat, flt, limit)
     tr = TapeRecorder(reader)
+    shared = {True: RecordingLookupProperties(start_date=None, skip_incomplete=True), False: RecordingLookupProperties(start_date=None, skip_incomplete=False)}
     for cat in CATS:
         for skip in (True, False):
             for flt in (None, {'m': 1}, {'m': [1, 2]}):
                 for limit in (None, 1):
-                    props = RecordingLookupProperties(start_date=None, metadata=dict(flt) if flt else None, limit=limit, skip_incomplete=skip)
+                    if limit is None:   # ONE properties object re-used for successive lookups, its filter replaced in between
+                        props = shared[skip]
+                        props.metadata = dict(flt) if flt else None
+                        props.limit = None
+                    else:
+                        props = RecordingLookupProperties(start_date=None, metadata=dict(flt) if flt else None, limit=limit, skip_incomplete=skip)
                     eff = dict(flt or {})
                     if skip:
                         eff[INC] = [False, None]
